@@ -342,10 +342,20 @@ where
                 let mut runner = TestRunner::new(cfg);
                 let failed = AtomicBool::new(false);
                 let last_fail: Mutex<Option<Fail>> = Mutex::new(None);
+                // shrinking is bounded by wall-clock (minimality only, never the verdict): expensive
+                // cases would otherwise shrink for half an hour
+                let shrink_start: Mutex<Option<std::time::Instant>> = Mutex::new(None);
                 let r = runner.run(&make_strategy(), |case| {
                     if ctx.stopped() && !failed.load(Ordering::SeqCst) {
                         // another worker found a violation: stop generating (counts nothing)
                         return Ok(());
+                    }
+                    if failed.load(Ordering::SeqCst) {
+                        let mut st = shrink_start.lock().unwrap();
+                        let t0 = *st.get_or_insert_with(std::time::Instant::now);
+                        if t0.elapsed().as_secs() > 90 {
+                            return Ok(());
+                        }
                     }
                     journal(ctx.id, &case);
                     match test(&case) {
